@@ -600,6 +600,75 @@ def body_kernel(case, ctx):
 
 
 @st.composite
+def kernel_mixed_case(draw):
+    """a batch whose matrices have different ranks (the documented matching_rank=False route)"""
+    n = draw(st.integers(2, 5))
+    m = draw(st.integers(n, n + 1))
+    k = draw(st.integers(2, 4))
+    mats = []
+    for _ in range(k):
+        d = draw(st.integers(0, n))
+        mats.append(dict(d=d, U=draw(gen.orthogonal_matrix(m)), V=draw(gen.orthogonal_matrix(n)),
+                         s=[draw(fl(0.3, 3.0)) for _ in range(n - d)]))
+    return dict(n=n, m=m, mats=mats, opts=draw(st.sampled_from(["dims+loc", "dims", "loc",
+                                                               "plain"])))
+
+
+def body_kernel_mixed(case, ctx):
+    from geometry_tools.utils import numerical
+    n, m = case["n"], case["m"]
+    As, ds = [], []
+    for sp in case["mats"]:
+        r = n - sp["d"]
+        U, V = np.array(sp["U"], dtype=float), np.array(sp["V"], dtype=float)
+        As.append((U[:, :r] * np.array(sp["s"], dtype=float)[None, :]) @ V[:r, :])
+        ds.append(sp["d"])
+    A = np.array(As)
+    distinct = sorted(set(ds))
+    ctx.label("n=%d" % n, "n>=3" if n >= 3 else "", "batch", "opts=" + case["opts"],
+              "ranks-differ" if len(distinct) > 1 else "ranks-equal")
+    if len(distinct) > 1:
+        try:
+            utils.kernel(A.copy())
+            ctx.fail("kernel() of a batch of matrices of different rank must raise ValueError "
+                     "(one array cannot hold bases of different dimension)", dims=ds)
+        except ValueError:
+            pass
+    kw = dict(matching_rank=False, with_dimensions=case["opts"] in ("dims+loc", "dims"),
+              with_loc=case["opts"] in ("dims+loc", "loc"))
+    res = numerical.svd_kernel(A.copy(), **kw)
+    if case["opts"] == "plain":
+        bases, dims, locs = res, None, None
+    elif case["opts"] == "dims":
+        dims, bases = res
+        locs = None
+    elif case["opts"] == "loc":
+        bases, locs = res
+        dims = None
+    else:
+        dims, bases, locs = res
+    ctx.check(len(bases) == len(distinct), "one group of bases per kernel dimension",
+              got=len(bases), want=len(distinct))
+    if dims is not None:
+        ctx.check(list(np.asarray(dims)) == distinct, "reported kernel dimensions (ascending)",
+                  got=list(np.asarray(dims)), want=distinct)
+    for gi, dd in enumerate(distinct):
+        members = [i for i, x in enumerate(ds) if x == dd]
+        K = np.asarray(bases[gi], dtype=float)
+        ctx.check(K.shape == (len(members), n, dd), "shape of the group of bases", got=K.shape,
+                  want=(len(members), n, dd))
+        if locs is not None:
+            ctx.check(list(np.nonzero(np.asarray(locs[gi]))[0]) == members, "location mask of "
+                      "the group", got=np.asarray(locs[gi]).tolist(), want=members)
+        for j, i in enumerate(members):
+            if dd == 0:
+                continue
+            ctx.small("A K = 0 (mixed-rank batch)", A[i] @ K[j], 1e-11)
+            ctx.close("K^T K = I (mixed-rank batch)", K[j].T @ K[j], np.eye(dd), rtol=0,
+                      atol=1e-12)
+
+
+@st.composite
 def kernel_complex_case(draw):
     n = draw(st.integers(2, 5))
     d = draw(st.integers(1, n - 1))
@@ -649,7 +718,11 @@ def sphere_case(draw, circle=False):
     shape = draw(gen.shapes(max_rank=2))
     sph = []
     for _ in range(gen.prod(shape)):
-        sph.append(dict(c=[draw(fl(-5.0, 5.0)) for _ in range(D)],
+        # the centre: near the origin, or far from it compared with the radius (the points
+        # then agree in their leading digits - a fit in coordinates relative to one of the
+        # points keeps full accuracy there)
+        far = draw(st.sampled_from([1.0, 1.0, 1.0, 1e3, 1e5]))
+        sph.append(dict(c=[far * draw(fl(-5.0, 5.0)) for _ in range(D)],
                         r=draw(st.one_of(fl(0.1, 10.0), st.just(1.0))),
                         Q=draw(gen.orthogonal_matrix(D)),
                         noise=[draw(fl(-0.25, 0.25)) for _ in range((D + 1) * D)]))
@@ -687,9 +760,9 @@ def body_sphere(case, ctx):
         dist = np.linalg.norm(P[idx] - c[idx], axis=-1)
         ctx.check(r[idx] > 0, "positive radius", r=r[idx])
         ctx.close("every point is at distance r from the centre", dist,
-                  np.full(D + 1, r[idx]), rtol=0, atol=1e-12 * sc * 10, cond=conds[t])
-        ctx.close("centre", c[idx], Cs[t], rtol=0, atol=1e-12 * sc * 10)
-        ctx.close("radius", r[idx], Rs[t], rtol=0, atol=1e-12 * sc * 10)
+                  np.full(D + 1, r[idx]), rtol=0, atol=1e-12 * sc, cond=conds[t])
+        ctx.close("centre", c[idx], Cs[t], rtol=0, atol=1e-12 * sc)
+        ctx.close("radius", r[idx], Rs[t], rtol=0, atol=1e-12 * sc)
     if D >= 2 and not shape:
         try:
             utils.sphere_through(P[:-1].copy())
@@ -940,6 +1013,8 @@ LAWS = [
         quick=100, thorough=1000, shards=(1, 2)),
     Law("kernel", kernel_case(), body_kernel, _nt_dim, quick=200, thorough=2000,
         shards=(1, 4)),
+    Law("kernel_mixed_rank_batch", kernel_mixed_case(), body_kernel_mixed, _nt_dim, quick=150,
+        thorough=1200, shards=(1, 3)),
     Law("kernel_complex", kernel_complex_case(), body_kernel_complex, lambda l: True, quick=150,
         thorough=1000, shards=(1, 2)),
     Law("sphere_through", sphere_case(), body_sphere, _nt_dim, quick=150, thorough=1500,
